@@ -815,6 +815,18 @@ def batteryCoinswap (p : CoinswapParams) : List String :=
 def batteryFarm (p : FarmParams) : List String :=
   if isPanic (farmCreatePoolFee p 1) then ["create_pool"] else []
 
+/-- the supply a battery continues from: the new one if the step succeeded, else the old one -/
+def supplyAfter (r : Res Supply) (s0 : Supply) : Supply :=
+  match r with
+  | .ok s => s
+  | .error _ => s0
+
+/-- a step that is only attempted when an earlier one succeeded (otherwise an ordinary rejection) -/
+def onlyAfter (r1 : Res Supply) (r : Res Supply) : Res Supply :=
+  match r1 with
+  | .ok _ => r
+  | .error _ => .error .reject
+
 /-- htlc: the HTLT part of the battery uses the first asset, amount = its MaxSwapAmount,
     starting from the empty supply the begin blocker creates -/
 def batteryHtlc (p : HtlcParams) : List String :=
@@ -826,13 +838,11 @@ def batteryHtlc (p : HtlcParams) : List String :=
     | some mx =>
       let s0 : Supply := {}
       let r1 := htltIncoming a s0 mx
-      let s1 := match r1 with | .ok s => s | .error _ => s0
+      let s1 := supplyAfter r1 s0
       let r2 := htltIncoming a s1 mx
-      let s2 := match r2 with | .ok s => s | .error _ => s1
-      let r3 := match r1 with
-        | .ok _ => htltClaimIncoming a s2 mx
-        | .error _ => .error .reject
-      let s3 := match r3 with | .ok s => s | .error _ => s2
+      let s2 := supplyAfter r2 s1
+      let r3 := onlyAfter r1 (htltClaimIncoming a s2 mx)
+      let s3 := supplyAfter r3 s2
       let r4 := htltOutgoing a s3 mx a.maxBlockLock
       (if isPanic r1 then ["htlt_in"] else []) ++ (if isPanic r2 then ["htlt_in2"] else []) ++
       (if isPanic r3 then ["htlt_claim"] else []) ++ (if isPanic r4 then ["htlt_out"] else [])
